@@ -91,6 +91,7 @@ type world struct {
 	mainWord uint32 // futex word main waits on
 	done     uint32 // 1 = all finished, 2 = deadlock
 	overflow uint32 // a table of the simulator was full: the run is not a valid simulation
+	ops      uint64 // seam operations executed (locks, onces, pool, map ranges, file accesses): a deterministic measure of work
 	_        uint32
 
 	rng      uint64
